@@ -37,7 +37,7 @@ var c06Programs = []string{
 	"[1..40].randSize(4)", "[1..16].randSize(2)", "[1..64].randSize(16)", "x = [1..100].randSize(25); [x[0], x[24]]", "[1..300].shuffle()[0:5]",
 }
 
-var c06Stmts = []string{"x = 2d6", "y = [1,2,3,4].shuffle()", "z = 1 + 3d6k2", "func g(){ d20 }; w = g()", "&c = d6; v = c + c", "u = 2c8 + 2a9", "t = [1,2,3].rand()", "s = `{d6}{f}`", "r = b2 + p"}
+var c06Stmts = []string{"x = 2d6", "y = [1,2,3,4].shuffle()", "z = 1 + 3d6k2", "func g(){ d20 }; w = g()", "&c = d6; v = c + c", "u = 2c8 + 2a9", "t = [1,2,3].rand()", "s = `{d6}{f}`", "r = b2 + p", "&m = n9 || d100; &m.n9 = m; q = m"}
 
 func c06Enumerate(tier string, seed int64, emit func(string, any)) {
 	thorough := tier == "thorough"
@@ -383,7 +383,24 @@ func c06Run(raw json.RawMessage) harn.Result {
 		if !o2.same(o2b) {
 			viol("C06:resume-from-held-capture", fmt.Sprintf("after %q capture; run %q (original: %s); later resume from that capture and run %q again: %s", p1, p2, o2, p2, o2b))
 		}
-		res.Stats["executions"] += 6
+		// (c) the default-sides setting is changed on a context that has already rolled dice without written sides: from then on
+		// it rolls like a fresh context that resumes from the captured state under the new setting
+		{
+			vmD := c06NewVM(c, append([]byte{}, seedBytes...))
+			vmD.Config.DefaultDiceSideExpr = "6"
+			_ = vmD.Run("d + 2d")
+			_ = vmD.Run(p1)
+			capD, _ := vmD.GetCurSeed()
+			vmD.Config.DefaultDiceSideExpr = "20"
+			od := c06Eval(c, vmD, "d + 2d + 0*1", nil)
+			fr := c06NewVM(c, append([]byte{}, capD...))
+			fr.Config.DefaultDiceSideExpr = "20"
+			of := c06Eval(c, fr, "d + 2d + 0*1", nil)
+			if !od.same(of) {
+				viol("C06:setting-change-on-used-context", fmt.Sprintf("context rolled 'd + 2d' with default sides 6, then %q; after the setting became 20, 'd + 2d' gives %s; a fresh context resumed from the same state gives %s", p1, od, of))
+			}
+		}
+		res.Stats["executions"] += 8
 		res.Sample = fmt.Sprintf("lifecycle %q", c.Stmts)
 	case "resume":
 		for split := 1; split < len(c.Stmts); split++ {
